@@ -31,6 +31,8 @@ type multicastProxy struct {
 	udpConn  *net.UDPConn
 	destAddr [rtpChannelCount]*net.UDPAddr
 	cid      media.CID
+	source   *media.Stream // 代理当前消费的流（停止消费时必须是同一个流，而不是此刻注册在该路径上的流）
+	gen      int           // 每次启动递增：上一次消费的协程退出时只能关闭它自己那一次启动
 
 	multicastLock sync.Mutex
 	members       []io.Closer
@@ -62,13 +64,34 @@ func (proxy *multicastProxy) AddMember(m io.Closer) {
 			}
 		}
 
-		proxy.cid = stream.StartConsume(proxy, media.RTPPacket,
+		proxy.gen++
+		proxy.source = stream
+		proxy.closed = false // 先于 StartConsume：回放的 gop 缓存也要转发
+		proxy.cid = stream.StartConsume(&multicastSink{proxy: proxy, gen: proxy.gen}, media.RTPPacket,
 			"net = rtsp-multicast, "+proxy.multicastIP)
-		proxy.closed = false
 
 		proxy.logger.Info("multicast proxy started.")
 	}
 	proxy.members = append(proxy.members, m)
+}
+
+// multicastSink 是代理每次启动时向流登记的消费者。
+// 流结束（或这次消费被停止）时由消费协程调用 Close；如果其间代理已被新成员重新启动，
+// 迟到的 Close 不得关闭新的这一次启动
+type multicastSink struct {
+	proxy *multicastProxy
+	gen   int
+}
+
+func (s *multicastSink) Consume(p Pack) { s.proxy.Consume(p) }
+
+func (s *multicastSink) Close() error {
+	s.proxy.multicastLock.Lock()
+	defer s.proxy.multicastLock.Unlock()
+	if s.proxy.gen == s.gen {
+		s.proxy.close()
+	}
+	return nil
 }
 
 func (proxy *multicastProxy) ReleaseMember(m io.Closer) {
@@ -144,9 +167,9 @@ func (proxy *multicastProxy) close() {
 	}
 	proxy.closed = true
 
-	stream := media.Get(proxy.path)
-	if stream != nil {
-		stream.StopConsume(proxy.cid)
+	if proxy.source != nil {
+		proxy.source.StopConsume(proxy.cid)
+		proxy.source = nil
 	}
 
 	if proxy.udpConn != nil {
